@@ -2,6 +2,8 @@ package props
 
 import (
 	"fmt"
+	"go/constant"
+	"go/types"
 	"regexp"
 	"sort"
 	"strings"
@@ -21,12 +23,15 @@ func init() {
 			"(2) the constructor dispatches exactly the operators the validator accepts (Exists being the default), normalises the key first, Gt stores value+1 and Lt value-1, each guarded against the extreme that would wrap, Gte/Lte store the value; " +
 			"(3) Intersection and HasIntersection both derive their bounds from maxIntPtr(gte,gte) / minIntPtr(lte,lte), both answer empty when gte>lte, Intersection keeps bounds only for complements and filters every concrete value by withinBounds; " +
 			"(4) Requirements.Add stores Intersection(existing) whenever the key exists; intersectKeys ranges one operand and looks the key up in the other (never the same operand twice) and returns exactly the keys found; " +
+			"nothing but Add stores into a Requirements — so every constructor (labels, node selector terms, pod affinity) and every merge intersects inputs that name one key, e.g. a label alias and the stable key it is normalised to — except a key-for-key copy of ONE Requirements into a map made on the spot (DeepCopyInto) and the two deliberate replacements of the capacity-type entry under its constant, non-alias key (NodeClaim.FinalizeScheduling, drift's instanceTypeNotFound); library generics instantiated with Requirements that store (maps.Copy, lo.Assign) and maps of another type converted to Requirements count as stores; " +
 			"(5) Compatible succeeds only through Intersects, and passes an undefined key only if it is allowed-undefined, defined on the receiver, or the incoming operator is NotIn / DoesNotExist; " +
 			"Intersects records an error for every shared key without intersection unless both sides are NotIn / DoesNotExist.",
 		NotCovered: []string{
 			"exactness of the admitted sets, commutativity, associativity and idempotence (value-level)",
 			"HasIntersection ⇔ non-empty Intersection for complements with bounds (e.g. NotIn{5} ∧ ≥5 ∧ ≤5 answers true for an empty set)",
 			"sets.Set operations of apimachinery",
+			"removals from a Requirements (delete(r, key) widens the admitted set: FinalizeScheduling drops the hostname, instanceTypeNotFound the reserved-capacity labels) and whether the two capacity-type replacements store the intended values",
+			"a Requirements reached through reflection / unsafe, or written by a dependency that is handed the map as an interface value",
 		},
 		Rules: c12Rules,
 	})
@@ -133,6 +138,11 @@ func c12Rules(tier string) []Rule {
 		// ---- (4) sets of requirements
 		core.Custom{ID: "C12.PROV3", Kind: "PROV", Run: c12AddIntersects},
 		core.Custom{ID: "C12.SYM3", Kind: "SYM", Run: c12IntersectKeys},
+		// Two inputs of a constructor can name one key (label aliases are normalised by NewRequirement, preferred and
+		// required terms repeat keys), so "the set admits what every input admits" holds only if every entry of a
+		// Requirements gets there through Add's intersecting store (PROV3) — or is copied key for key from another
+		// Requirements into a new map. A raw `m[k] = v` anywhere else lets the later input overwrite the earlier one.
+		core.Custom{ID: "C12.WMC1", Kind: "WMC", Run: c12OnlyAddStores},
 
 		// ---- (5) Compatible / Intersects
 		core.Custom{ID: "C12.PROV4", Kind: "PROV", Run: func(w *core.World, id string) []core.Result {
@@ -363,4 +373,183 @@ func dropOK(rs []core.Result) []core.Result {
 		}
 	}
 	return out
+}
+
+// C12.WMC1: who may store into a scheduling.Requirements. Allowed are
+//
+//	(a) (Requirements).Add — the store PROV3 proves to be the intersection with the existing entry — and unexported
+//	    helpers that only Add reaches;
+//	(b) a key-for-key copy: the key is the range key of another Requirements (already normalised, pairwise distinct) and
+//	    the destination was made in the same function, all such stores into one destination ranging over one source (the
+//	    generated DeepCopyInto of cloudprovider.InstanceType / Offering);
+//	(c) in the two functions that deliberately REPLACE the capacity-type entry (NodeClaim.FinalizeScheduling pins it to
+//	    reserved, drift's instanceTypeNotFound widens it to reserved+on-demand): a store under a constant key K of
+//	    NewRequirement(K, …) for the same K, K not being a label alias (so map key = Requirement.Key).
+//
+// Anything else — a direct `m[k] = v`, a library generic instantiated with Requirements that stores (maps.Copy,
+// lo.Assign), a map of another type converted to Requirements — bypasses the intersection.
+func c12OnlyAddStores(w *core.World, id string) []core.Result {
+	const (
+		typ = "scheduling.Requirements"
+		add = "(scheduling.Requirements).Add"
+		min = 5 // functions holding a classified store: Add, DeepCopyInto of InstanceType and of Offering, the two capacity-type replacers
+	)
+	replacers := []string{"(*sched.NodeClaim).FinalizeScheduling", "controllers/nodeclaim/disruption.instanceTypeNotFound"}
+	T := w.NamedType(typ)
+	if T == nil {
+		return []core.Result{core.Anchor(id, "WMC", "type "+typ)}
+	}
+	if _, isMap := T.Underlying().(*types.Map); !isMap {
+		return []core.Result{core.Bad(id, "WMC", "WMC:"+typ, "", typ+" is no longer a map type: the rule about who stores into it has to be restated")}
+	}
+	if w.Fn(add) == nil {
+		return []core.Result{core.Anchor(id, "WMC", add)}
+	}
+	construct := "WMC:stores into " + typ
+	var out []core.Result
+	inAdd, copies, repl := 0, 0, 0
+	holders := map[string]bool{}
+	copySrc := map[string]map[string]bool{} // function + destination -> range sources
+	var facts []string
+	for _, s := range w.TypedMapStores(T) {
+		if core.IsTestSupport(s.Fn) {
+			continue
+		}
+		root := core.FnName(core.RootFn(s.Fn))
+		if root == add || len(w.PrivateHelperOwners(s.Fn, []string{add})) > 0 {
+			inAdd++
+			holders[add] = true
+			continue
+		}
+		if s.Via != "" {
+			out = append(out, core.Bad(id, "WMC", construct+"@"+root, w.InstrPos(s.Instr),
+				fmt.Sprintf("%s fills a %s through %s (`%s`), not through Add: two inputs that name one key (a label alias and its stable key, a repeated term) are not intersected — the later one wins", root, typ, s.Via, clipStr(w.RenderInstr(s.Instr), 120))))
+			continue
+		}
+		if src, ok := core.RangeKeySource(s.Update.Key); ok && types.Identical(types.Unalias(src.Type()), T) && w.MapMadeHere(s.Update) {
+			copies++
+			holders[root] = true
+			k := root + ": " + w.Render(s.Update.Map)
+			if copySrc[k] == nil {
+				copySrc[k] = map[string]bool{}
+			}
+			copySrc[k][w.Render(src)] = true
+			if len(copySrc[k]) > 1 {
+				out = append(out, core.Bad(id, "WMC", construct+"@"+root, w.InstrPos(s.Instr),
+					fmt.Sprintf("%s copies the entries of several %s into one new map by raw stores (`%s`): a key defined by two of them keeps only the last, not the intersection", root, typ, clipStr(w.RenderInstr(s.Instr), 120))))
+			}
+			continue
+		}
+		owners := []string{root}
+		if !c12Contains(replacers, root) {
+			owners = w.PrivateHelperOwners(s.Fn, replacers)
+		}
+		if len(owners) > 0 {
+			if why := c12ConstKeyReplacement(w, s.Update); why != "" {
+				out = append(out, core.Bad(id, "WMC", construct+"@"+root, w.InstrPos(s.Instr),
+					fmt.Sprintf("%s may replace one entry under a constant key by a requirement built for that key, but `%s` %s", root, clipStr(w.RenderInstr(s.Instr), 120), why)))
+			} else {
+				repl++
+				for _, o := range owners {
+					holders[o] = true
+				}
+				facts = append(facts, "replacement in "+root+" of "+w.Render(s.Update.Key))
+			}
+			continue
+		}
+		out = append(out, core.Bad(id, "WMC", construct+"@"+root, w.InstrPos(s.Instr),
+			fmt.Sprintf("%s stores into a %s directly (`%s`) instead of through Add: an entry already present under the (normalised) key is overwritten, not intersected — only Add, and a key-for-key copy of another %s into a new map, may store", root, typ, clipStr(w.RenderInstr(s.Instr), 120), typ)))
+	}
+	if inAdd == 0 {
+		out = append(out, core.Bad(id, "WMC", construct+"@"+add, "", "vacuous: Add (with its private helpers) contains no store into the receiver"))
+	}
+	if len(out) == 0 && len(holders) < min {
+		out = append(out, core.Bad(id, "WMC", construct, "", fmt.Sprintf("vacuous: stores into a %s were found in %d function(s) %v, expected at least %d (Add, the two DeepCopyInto copies, the two capacity-type replacers)", typ, len(holders), core.SortedKeys(holders), min)))
+	}
+	if len(out) == 0 {
+		for k := range copySrc {
+			facts = append(facts, "copy in "+k)
+		}
+		sort.Strings(facts)
+		out = append(out, core.OK(id, "WMC", construct, len(holders), fmt.Sprintf("%d store(s) in Add, %d key-for-key copy store(s) into new maps, %d constant-key replacement(s), nothing else", inAdd, copies, repl), facts...))
+	}
+	return out
+}
+
+func c12Contains(l []string, s string) bool {
+	for _, x := range l {
+		if x == s {
+			return true
+		}
+	}
+	return false
+}
+
+// c12ConstKeyReplacement: mu is `m[K] = NewRequirement(K, …)` (or NewRequirementWithFlexibility) for one string constant K
+// that is not a key of apis/v1.NormalizedLabels, or `m[x.Key] = x` for such an x. Returns what is wrong, "" if nothing.
+func c12ConstKeyReplacement(w *core.World, mu *ssa.MapUpdate) string {
+	call, ok := mu.Value.(*ssa.Call)
+	if !ok || len(call.Call.Args) == 0 || !regexp.MustCompile(`^scheduling\.NewRequirement(WithFlexibility)?$`).MatchString(w.CalleeName(call.Common())) {
+		return "does not store the result of NewRequirement"
+	}
+	a0, ok := call.Call.Args[0].(*ssa.Const)
+	if !ok || a0.Value == nil || a0.Value.Kind() != constant.String {
+		return "builds the requirement for a key that is not a constant"
+	}
+	k := constant.StringVal(a0.Value)
+	aliases, ok := c12AliasKeys(w)
+	if !ok {
+		return "cannot be checked: the initialiser of apis/v1.NormalizedLabels was not recognised"
+	}
+	if aliases[k] {
+		return "uses the alias " + k + ", which NewRequirement renames: the entry would sit under a key different from its own"
+	}
+	switch key := mu.Key.(type) {
+	case *ssa.Const:
+		if key.Value == nil || key.Value.Kind() != constant.String || constant.StringVal(key.Value) != k {
+			return "stores a requirement for " + k + " under another key"
+		}
+		return ""
+	case *ssa.UnOp:
+		if fa, ok := key.X.(*ssa.FieldAddr); ok && fa.X == mu.Value && core.FieldNameOf(fa) == "Key" {
+			return ""
+		}
+	}
+	return "stores a requirement for " + k + " under a key that is neither that constant nor the requirement's own Key"
+}
+
+// c12AliasKeys: the constant keys of the composite literal that initialises apis/v1.NormalizedLabels.
+func c12AliasKeys(w *core.World) (map[string]bool, bool) {
+	initFn := w.Fn("apis/v1.init")
+	if initFn == nil {
+		return nil, false
+	}
+	out := map[string]bool{}
+	found := false
+	for _, b := range initFn.Blocks {
+		for _, in := range b.Instrs {
+			st, ok := in.(*ssa.Store)
+			if !ok {
+				continue
+			}
+			if g, ok := st.Addr.(*ssa.Global); !ok || g.Name() != "NormalizedLabels" {
+				continue
+			}
+			mm, ok := st.Val.(*ssa.MakeMap)
+			if !ok {
+				return nil, false
+			}
+			found = true
+			for _, r := range *mm.Referrers() {
+				if mu, ok := r.(*ssa.MapUpdate); ok && mu.Map == mm {
+					c, ok := mu.Key.(*ssa.Const)
+					if !ok || c.Value == nil || c.Value.Kind() != constant.String {
+						return nil, false
+					}
+					out[constant.StringVal(c.Value)] = true
+				}
+			}
+		}
+	}
+	return out, found && len(out) >= 1
 }
